@@ -173,78 +173,3 @@ func ZZ_C14_ReassembleAnyOrder() {
 	verifAssert(len(rx.reassembly) <= 1 && rx.perSource["src"] == 0, "completed messages leave no state behind")
 	verifCover("reassembled")
 }
-
-// Bounded state: whatever frames two sources send, the per-source counter
-// equals the number of pending messages of that source, never exceeds 8, and
-// an incomplete message is forgotten once its TTL has passed.
-//
-//verif:harness kind=api unwind=200 preempt=0 bound=7-pending-prefilled,frames<=3(quick)/4(thorough),2-sources,3-message-ids,0-or-5s-between-frames
-func ZZ_C14_BoundedState() {
-	sock := &zzInner{}
-	verifMapOrder(false) // sweeps and evictions treat every entry alike (oldest deadline wins)
-	g := newGeckoPacketConn(sock, 16, 64)
-	// source s0 already has 7 pending messages (ids 10..16)
-	for id := 10; id < 17; id++ {
-		g.acceptChunk(zzAddrS{"s0"}, frameHeader{msgID: uint8(id), chunkIdx: 0, totalChunks: 2}, []byte{1})
-	}
-	steps := 3
-	if verifThorough() {
-		steps = 4
-	}
-	srcs := []string{"s0", "s1"}
-	// when each pending message was first seen: its lifetime is fixed then
-	born := map[reassemblyKey]int64{}
-	for k := range g.reassembly {
-		born[k] = verifNow()
-	}
-	for i := 0; i < steps; i++ {
-		if verifChoice("gap", 2) == 1 {
-			verifAdvance(int64(5 * time.Second)) // time passes between frames (the sweeper runs on its own ticker)
-			verifQuiesce()
-		}
-		h := frameHeader{msgID: []uint8{10, 30, 31}[verifChoice("msg", 3)], chunkIdx: uint8(verifChoice("idx", 2)), totalChunks: 2}
-		a := srcs[verifChoice("src", 2)]
-		// what the sweeper dropped meanwhile is forgotten (a later frame starts a new message)
-		for k := range born {
-			if _, ok := g.reassembly[k]; !ok {
-				delete(born, k)
-			}
-		}
-		g.acceptChunk(zzAddrS{a}, h, []byte{byte(i)})
-		now := verifNow()
-		for k := range born {
-			if _, ok := g.reassembly[k]; !ok {
-				delete(born, k)
-			}
-		}
-		for k := range g.reassembly {
-			if _, ok := born[k]; !ok {
-				born[k] = now
-			}
-		}
-		n0, n1 := 0, 0
-		for k := range g.reassembly {
-			if k.addr == "s0" {
-				n0++
-			} else {
-				n1++
-			}
-		}
-		verifAssert(g.perSource["s0"] == n0 && g.perSource["s1"] == n1, "per-source counters stay in step with the table")
-		verifAssert(n0 <= geckoMaxPerSource && n1 <= geckoMaxPerSource, "at most 8 pending messages per source")
-		if n0 == geckoMaxPerSource {
-			verifCover("cap-reached")
-		}
-		// no pending message outlives the TTL counted from its first frame, whatever
-		// arrived for it since (duplicates and further chunks do not extend it)
-		for k, t := range born {
-			_ = k
-			verifAssert(now-t <= int64(geckoReassemblyTTL)+int64(geckoReassemblyTTL/2), "an incomplete message is forgotten within its TTL (plus one sweep interval) of its first frame")
-		}
-	}
-	// finally: one TTL (and a sweep) after the last frame everything is gone
-	verifAdvance(int64(geckoReassemblyTTL) + 1)
-	g.gcExpired(time.Now())
-	verifAssert(len(g.reassembly) == 0 && len(g.perSource) == 0, "every incomplete message is forgotten after its TTL, counters released")
-	verifCover("expired")
-}
